@@ -394,7 +394,9 @@ def check(ctx):
             if role is None:
                 continue  # start point nudge etc.: diagnostic only
             want = ("<", "+") if role == "lower" else (">", "-")
-            same_t = grid_t is None or canon(t) == grid_t
+            tdefs = {canon(t)} | ({canon(x) for x in reaching_assignments(prog, fn, t.id, stmt)} if isinstance(t, ast.Name) else set())
+            gdefs = {grid_t} | ({canon(x) for x in reaching_assignments(prog, fn, grid_t, stmt)} if grid_t and grid_t.isidentifier() else set())
+            same_t = grid_t is None or bool(tdefs & gdefs)
             if (rel, sign) == want and same_t:
                 ctx.ok(fn, stmt, f"{role} search bound: v[v {rel} bound] {sign}= mesh")
             else:
@@ -474,6 +476,8 @@ def _inward_sites(prog, fn):
         grid_t = None
         for d in reaching_assignments(prog, fn, var, s):
             if isinstance(d, ast.Call) and len(d.args) >= 2 and any(isinstance(x, FunctionInfo) and x.name == "force_to_grid" for x in prog.resolve_call(fn, d)):
-                grid_t = canon(d.args[1])
+                # force_to_grid(x, mesh, tol=None): the grid is tol when given, else mesh
+                g3 = d.args[2] if len(d.args) >= 3 else kw(d, "tol")
+                grid_t = canon(g3) if g3 is not None and not (isinstance(g3, ast.Constant) and g3.value is None) else canon(d.args[1])
         out.append((var, r, v.right, rel, sign, s, grid_t))
     return out
